@@ -25,6 +25,14 @@ CLAIMED = {
    text="TLC checks on MuxBroker.tla that no reachable state has the expiry goroutine blocked under the broker lock, that every call returns (liveness under fairness, maximal-progress time) and that nothing is left waiting at the end of time, and confirms that the pre-fix variant of the model violates these. Histories of unmatched / duplicate / late / expiry-instant calls followed by a fresh pair are replayed on the real brokers with gates forcing the critical interleavings; a hang, a call that never returns, a goroutine left after Close, or a trace TLC rejects is a violation.",
    note="Trusted: yamux, net/rpc, synctest. The gRPC broker's liveness clauses are exercised by the C07/C08 drivers' timeout scenarios when those are built; this check decides the MuxBroker side."),
 
+ "C13": dict(cat="model_checking", design="§6 C13",
+   technique="TLA+ Checksum.tla (Gate as the code's check order; launch enabled only by a passed check; TLC over all bit-string pairs); real Client.Start with SecureConfig on generated files, all single-bit flips / prefixes / extensions / empty / nil hash and tamper-after-ok histories; observations judged by TLC (TraceChecksum.tla)",
+   text="TLC checks for all digests of 3 bits and all configured checksums of up to 4 bits, with and without a hash function, that the launch step is reachable only when the two are equal and that every other relation yields the corresponding error. The real Client.Start is run with a SecureConfig on generated executables (a script that records its own launch): the exact digest must launch; every one-bit flip at each of the digest's bit positions, every proper prefix, trailing bytes, empty/nil checksum, an unrelated checksum and a nil Hash must return the matching error with no launch, also 200 ms later; and a SecureConfig value reused after the file was changed in place (same length and mtime) must reject it. TLC maps each observation's class to a representative pair and judges it with Gate.",
+   note="Trusted: the hash implementations, the marker file as the witness of execution. Quick: one file, sha256 exhaustively plus a few cases per other hash; thorough: 12 files x 4 hashes."),
+ "C17": dict(cat="model_checking", design="§6 C17",
+   technique="TLA+ Env.tla (last-wins layering of cmd.Env as the code builds it vs. the property's allowed sources; TLC over all 32 configs x 512 host environments); real Client.Start with RunnerFunc capture and with a real child process dumping its environment; observations judged by TLC (TraceEnv.tla)",
+   text="TLC checks for every client configuration (AutoMTLS, multiplexing, socket group, custom runner, SkipHostEnv) and every subset of the nine variables present in the host's own environment that the effective source of each variable is one the property allows and that the negotiation variables do not depend on the host environment. The same cases run on the real code: the driver sets its own environment, starts a Client, and reads the environment handed to RunnerFunc or found in a real child process (env -0); last-wins values are classified as client / host / absent, the version list must be exactly the offered set, values must be the configured ones, stdin must be the host's; TLC judges each observation against both the property and the model of the code.",
+   note="Each config is run with the all-present host (a host that is itself a plugin) and the clean host, plus random host subsets. Linux only."),
  "C19": dict(cat="model_checking", design="§6 C19, §4.2",
    technique="TLA+ Lifecycle.tla (LaunchAtMostOnce, NoLaunchAfterKill, KillPost; TLC exhaustive per plan, pre-fix variant must fail); all call words up to length 5 read off TLC's state graph replayed on a real Client with a scripted runner; traces validated by TLC (TraceLifecycle.tla); concurrent call mixes held to the property's invariants",
    text="TLC explores every sequence of Start/Client/Protocol/ReattachConfig/ID/Exited/Kill calls (and plugin crashes) of bounded length for every outcome of the first launch and checks that the plugin is launched at most once, never again after Kill, and what each call returns. The call words are read off TLC's graph and executed on the real Client (custom runner with an in-memory process, an in-process RPC server when the launch succeeds); after every call the result class, the launch count, the runner kill count, pointer identity of address and protocol client, and the presence of the socket directory are logged, and TLC validates each trace against the model (process exit and the wait goroutine as silent steps). Two-goroutine mixes with a delayed handshake line are checked against the invariants (one launch, one directory, same address, same client) and for calls that never return.",
